@@ -252,6 +252,10 @@ def binop(rt, interp, op, a, b, node=None):
                 return interp.call(rt.bind(m, a), [b], {})
     if opn == "Mod" and isinstance(a, (str, SStr)):
         return interp.ctx.fresh_str("fmt")
+    if ((isinstance(a, (bytes, SBytes)) and _is_intlike(b) and opn not in ("Mult", "Mod"))
+            or (_is_intlike(a) and isinstance(b, (bytes, SBytes)) and opn != "Mult")):
+        # bytes <op> int is a TypeError for every operator but `*` (and `%` formatting), whatever the values are
+        interp.raise_py("TypeError", "unsupported operand type(s) for %s: bytes and int" % opn)
     if opn == "Mult" and isinstance(a, (bytes, SBytes)) and _is_intlike(b):
         hook = rt.hooks.get("bytes*int")
         if hook is not None:
